@@ -223,7 +223,9 @@ Section HandleFacts.
     | AForward u =>
       match pack_req ecs q client with
       | Ok w => match up u (Ok w) with
-                | UReply r => handle_req matches rules ecs up q client = (remove_opt r, [EQuery u (Ok w)])
+                | UReply r => handle_req matches rules ecs up q client =
+                              if reply_question_ok q r then (remove_opt r, [EQuery u (Ok w)])
+                              else (empty_resp q RCodeServFail, [EQuery u (Ok w)])
                 | UFail => handle_req matches rules ecs up q client = (empty_resp q RCodeServFail, [EQuery u (Ok w)])
                 end
       | _ => handle_req matches rules ecs up q client = (empty_resp q RCodeServFail, [])
@@ -331,7 +333,8 @@ Section OptFacts.
   Proof.
     unfold handle_req. destruct (decide matches rules (q_name q)); try reflexivity.
     destruct (pack_req ecs q client) as [w| | |]; try reflexivity.
-    destruct (up u (Ok w)) as [r|] eqn:E; [|reflexivity]. cbn [fst].
+    destruct (up u (Ok w)) as [r|] eqn:E; [|reflexivity].
+    destruct (reply_question_ok q r); [|reflexivity]. cbn [fst].
     apply remove_opt_idem_count. eapply up_one_opt; eauto.
   Qed.
 
@@ -463,6 +466,69 @@ Proof.
   - rewrite <- (app_nil_r (plain_bytes _)). now apply unpack_plain.
 Qed.
 
+(* ---------- ASCII-case-insensitive question equality ---------- *)
+Lemma leqb_eq a : forall b, list_eqb a b = true <-> a = b.
+Proof.
+  induction a as [|x a IH]; intros [|y b]; cbn; split; intros H; try reflexivity; try discriminate.
+  - apply andb_true_iff in H. destruct H as [H1 H2]. apply N.eqb_eq in H1. apply IH in H2. congruence.
+  - inversion H; subst. rewrite N.eqb_refl. cbn. now apply IH.
+Qed.
+
+Lemma lower_idem c : lower (lower c) = lower c.
+Proof.
+  unfold lower. destruct ((65 <=? c)%N && (c <=? 90)%N) eqn:E; [|now rewrite E].
+  assert ((65 <=? c + 32)%N && (c + 32 <=? 90)%N = false) as ->; [|reflexivity].
+  apply andb_true_iff in E. destruct E as [E1 E2]. apply N.leb_le in E1. apply andb_false_iff. right. apply N.leb_gt. lia.
+Qed.
+
+Lemma map_lower_idem l : map lower (map lower l) = map lower l.
+Proof. rewrite map_map. apply map_ext, lower_idem. Qed.
+
+(* ToLowerName never changes a name up to ASCII folding — for ANY octet string, well-formed or not *)
+Lemma to_lower_go_fold fuel : forall n, map lower (to_lower_go fuel n) = map lower n.
+Proof.
+  induction fuel as [|f IH]; intros [|c tl]; try reflexivity. cbn [to_lower_go].
+  destruct (c =? 0)%N; [reflexivity|]. destruct (63 <? c)%N; [reflexivity|].
+  destruct (length tl <? N.to_nat c); [reflexivity|].
+  cbn [map]. rewrite map_app, map_lower_idem, IH, <- map_app, firstn_skipn. reflexivity.
+Qed.
+
+Lemma to_lower_name_fold n : map lower (to_lower_name n) = map lower n.
+Proof. unfold to_lower_name. destruct (254 <? length n); [reflexivity|apply to_lower_go_fold]. Qed.
+
+Lemma q_eq_ci_refl q : q_eq_ci q q = true.
+Proof. unfold q_eq_ci. rewrite !N.eqb_refl, andb_true_r, andb_true_r. now apply leqb_eq. Qed.
+
+Lemma q_eq_ci_lower q : q_eq_ci (lower_q q) q = true.
+Proof.
+  unfold q_eq_ci, lower_q. cbn [q_name q_type q_class]. rewrite !N.eqb_refl, !andb_true_r.
+  apply leqb_eq, to_lower_name_fold.
+Qed.
+
+Lemma q_eq_ci_lower_r a q : q_eq_ci a (lower_q q) = true -> q_eq_ci a q = true.
+Proof.
+  unfold q_eq_ci, lower_q. cbn [q_name q_type q_class]. intros H.
+  apply andb_true_iff in H. destruct H as [H Hc]. apply andb_true_iff in H. destruct H as [Hn Ht].
+  rewrite Ht, Hc, !andb_true_r. apply leqb_eq. apply leqb_eq in Hn. rewrite Hn. apply to_lower_name_fold.
+Qed.
+
+(* on well-formed names folding octet-wise is the same as folding label-wise (length octets are < 'A') *)
+Lemma lower_small c : (c < 65)%N -> lower c = c.
+Proof. intros H. unfold lower. assert ((65 <=? c)%N = false) as -> by (apply N.leb_gt; lia). reflexivity. Qed.
+
+Lemma map_lower_raw ls : Forall wf_label ls -> map lower (raw ls) = raw (map (map lower) ls).
+Proof.
+  induction 1 as [|l ls [Hl _] _ IH]; [reflexivity|]. cbn [raw map].
+  rewrite map_app, IH, map_length. rewrite lower_small by lia. reflexivity.
+Qed.
+
+Lemma to_lower_name_wf_fold n : wf_name n -> to_lower_name n = map lower n.
+Proof.
+  intros (ls & -> & Hf & Hl). unfold to_lower_name.
+  assert (254 <? length (raw ls) = false) as -> by (apply Nat.ltb_ge; lia).
+  rewrite to_lower_go_raw by (auto; apply raw_len_ge; exact Hf). symmetry. apply map_lower_raw, Hf.
+Qed.
+
 (* ====================== the complete response table (C03 / C10) ====================== *)
 Section Table.
   Variable matches : nat -> list N -> bool.
@@ -483,10 +549,14 @@ Section Table.
         eff = [EQuery u (Ok w)] /\
         match up u (Ok w) with
         | UFail => h_rcode (m_hdr r) = RCodeServFail /\ m_qs r = [lower_q q] /\ m_an r = [] /\ m_ns r = []
-        | UReply rep => h_rcode (m_hdr r) = h_rcode (m_hdr rep) /\ m_qs r = m_qs rep /\
-                        m_an r = m_an rep /\ m_ns r = m_ns rep /\
-                        h_aa (m_hdr r) = h_aa (m_hdr rep) /\ h_tc (m_hdr r) = h_tc (m_hdr rep) /\
-                        h_ad (m_hdr r) = h_ad (m_hdr rep) /\ h_cd (m_hdr r) = h_cd (m_hdr rep)
+        | UReply rep =>
+          if reply_question_ok (lower_q q) rep then
+            h_rcode (m_hdr r) = h_rcode (m_hdr rep) /\ m_qs r = m_qs rep /\
+            m_an r = m_an rep /\ m_ns r = m_ns rep /\
+            h_aa (m_hdr r) = h_aa (m_hdr rep) /\ h_tc (m_hdr r) = h_tc (m_hdr rep) /\
+            h_ad (m_hdr r) = h_ad (m_hdr rep) /\ h_cd (m_hdr r) = h_cd (m_hdr rep)
+          else  (* a reply to another question counts as an upstream failure *)
+            h_rcode (m_hdr r) = RCodeServFail /\ m_qs r = [lower_q q] /\ m_an r = [] /\ m_ns r = []
         end
       | _ => h_rcode (m_hdr r) = RCodeServFail /\ eff = []
       end
@@ -499,12 +569,38 @@ Section Table.
     destruct (decide matches rules (q_name (lower_q q))) as [rc|u|].
     - rewrite T. cbn [fst snd]. destruct (has_opt m); cbn; auto.
     - destruct (pack_req ecs (lower_q q) client) as [w| | |].
-      + destruct (up u (Ok w)) as [rep|]; rewrite T; cbn [fst snd]; (split; [reflexivity|]);
-          destruct (has_opt m); cbn; auto 10.
+      + destruct (up u (Ok w)) as [rep|]; rewrite T; [destruct (reply_question_ok (lower_q q) rep)|];
+          cbn [fst snd]; (split; [reflexivity|]); destruct (has_opt m); cbn; auto 10.
       + rewrite T. cbn [fst snd]. destruct (has_opt m); cbn; auto.
       + rewrite T. cbn [fst snd]. destruct (has_opt m); cbn; auto.
       + rewrite T. cbn [fst snd]. destruct (has_opt m); cbn; auto.
     - rewrite T. cbn [fst snd]. destruct (has_opt m); cbn; auto.
+  Qed.
+
+  (* C03, the question clause: EVERY response — local or relayed — carries no question, or exactly one that equals
+     the query's first question ASCII-case-insensitively (a relayed reply is checked by respQuestionMatch) *)
+  Theorem handle_question m client :
+    match m_qs (fst (handle' m client)), m_qs m with
+    | [], _ => True
+    | [qr], q :: _ => q_eq_ci qr q = true
+    | _, _ => False
+    end.
+  Proof.
+    destruct (unsupported m) eqn:Hu.
+    - unfold handle. rewrite Hu. cbn [fst fix_header m_qs empty_resp_m].
+      destruct (m_qs m) as [|q qs]; cbn [firstn]; [exact I|apply q_eq_ci_refl].
+    - destruct (handle_supported matches rules ecs up m client Hu) as (q & qs & Hq & ->). cbn [fst].
+      rewrite fix_header_qs, opt_fix_qs, Hq.
+      pose proof (handle_req_table matches rules ecs up (lower_q q) client) as T.
+      destruct (decide matches rules (q_name (lower_q q))) as [rc|u|].
+      + rewrite T. cbn. apply q_eq_ci_lower.
+      + destruct (pack_req ecs (lower_q q) client) as [w| | |]; try (rewrite T; cbn; apply q_eq_ci_lower).
+        destruct (up u (Ok w)) as [rep|]; rewrite T; [|cbn; apply q_eq_ci_lower].
+        destruct (reply_question_ok (lower_q q) rep) eqn:Er; cbn [fst]; [|cbn; apply q_eq_ci_lower].
+        unfold remove_opt. cbn [m_qs set_ar]. unfold reply_question_ok in Er.
+        destruct (m_qs rep) as [|qr [|qr2 rest]]; [exact I| |discriminate].
+        apply q_eq_ci_lower_r, Er.
+      + rewrite T. cbn. apply q_eq_ci_lower.
   Qed.
 
   (* an unsupported query: NOTIMP, at most the first question copied, nothing forwarded *)
@@ -528,7 +624,7 @@ Section Table.
       + rewrite T. cbn. split; [lia|intros ? ? []].
       + destruct (pack_req ecs (lower_q q) client) as [w| | |] eqn:Ep.
         * assert (snd (handle_req matches rules ecs up (lower_q q) client) = [EQuery u (Ok w)]) as ->.
-          { destruct (up u (Ok w)); now rewrite T. }
+          { destruct (up u (Ok w)) as [rep|]; rewrite T; [destruct (reply_question_ok (lower_q q) rep)|]; reflexivity. }
           split; [cbn; lia|]. intros u' w' [H|[]]. inversion H; subst. split; [reflexivity|].
           exists q, qs. rewrite Ep. auto.
         * rewrite T. cbn. split; [lia|intros ? ? []].
@@ -666,10 +762,11 @@ Section HandleWf.
     intros Hq. unfold handle_req. destruct (decide matches rules (q_name q)) as [rc|u|] eqn:Ed.
     - cbn [fst]. split; [apply empty_resp_wf; [exact Hq|eapply decide_reject_small; eauto]|unfold resp_room; cbn; lia].
     - destruct (pack_req ecs q client) as [w| | |]; try (cbn [fst]; split; [apply empty_resp_wf; [exact Hq|unfold RCodeServFail; lia]|unfold resp_room; cbn; lia]).
-      destruct (up u (Ok w)) as [r|] eqn:Eu; cbn [fst].
+      destruct (up u (Ok w)) as [r|] eqn:Eu; [destruct (reply_question_ok q r)|]; cbn [fst].
       + destruct (up_wf _ _ _ Eu) as [Hw Hr]. split; [now apply remove_opt_wf|].
         unfold resp_room, remove_opt in *. cbn [m_ar set_ar]. destruct Hw as (_ & _ & _ & _ & Fr & _).
         destruct (pop_opt_wf _ Fr). lia.
+      + split; [apply empty_resp_wf; [exact Hq|unfold RCodeServFail; lia]|unfold resp_room; cbn; lia].
       + split; [apply empty_resp_wf; [exact Hq|unfold RCodeServFail; lia]|unfold resp_room; cbn; lia].
     - cbn [fst]. split; [apply empty_resp_wf; [exact Hq|unfold RCodeRefused; lia]|unfold resp_room; cbn; lia].
   Qed.
